@@ -3,17 +3,22 @@
 (* behaviour of OrderedMap?  Each recorded line {a, arg, obs} must be the next *)
 (* action of the specification with those arguments, and every observable the  *)
 (* specification computes for that step (last'.exp) must equal what was        *)
-(* observed.  Executions are separated by {"a":"Reset"} lines.                 *)
+(* observed.  Executions are separated by {"a":"Reset"} lines.  The arguments  *)
+(* the specification derives itself (the key found at an index: arg.k of       *)
+(* EraseAt / AtIndexAssign / IterAssign) are not taken from the trace.         *)
 EXTENDS OrderedMap, Json, IOUtils, TLCExt
 
 VARIABLE l
-tvars == <<m, last, l>>
+tvars == <<m, s, last, l>>
 
 TraceLines == ndJsonDeserialize(IOEnv.TRACE)
 N == Len(TraceLines)
 Line == TraceLines[l]
 
-ObsMatches == \A f \in DOMAIN last'.exp : f \in DOMAIN Line.obs /\ Line.obs[f] = last'.exp[f]
+\* (compared through their printed form: TLC refuses to compare values of different kinds, e.g. "throws" with 3;
+\*  observables are integers, strings, booleans and tuples of those, whose printed form is canonical)
+Same(a, b) == ToString(a) = ToString(b)
+ObsMatches == \A f \in DOMAIN last'.exp : f \in DOMAIN Line.obs /\ Same(Line.obs[f], last'.exp[f])
 
 TInit == Init /\ l = 1
 
@@ -29,9 +34,26 @@ Dispatch ==
   \/ Line.a = "IterConst" /\ IterConst
   \/ Line.a = "AtIndex" /\ AtIndex(Line.arg.i)
   \/ Line.a = "Reserve" /\ Reserve(Line.arg.n)
+  \/ Line.a = "EraseAt" /\ EraseAt(Line.arg.i)
+  \/ Line.a = "AtIndexAssign" /\ AtIndexAssign(Line.arg.i, Line.arg.v)
+  \/ Line.a = "IterAssign" /\ IterAssign(Line.arg.i, Line.arg.v)
+  \/ Line.a = "ConstIndex" /\ ConstIndex(Line.arg.k)
+  \/ Line.a = "InsertThrows" /\ InsertThrows(Line.arg.k, Line.arg.w)
+  \/ Line.a = "CopyTo" /\ CopyTo
+  \/ Line.a = "CopyFrom" /\ CopyFrom
+  \/ Line.a = "CopyCtor" /\ CopyCtor
+  \/ Line.a = "MoveCtor" /\ MoveCtor
+  \/ Line.a = "MoveAssign" /\ MoveAssign
+  \/ Line.a = "SelfAssign" /\ SelfAssign
+  \/ Line.a = "Swap" /\ Swap
+  \/ Line.a = "Put2" /\ Put2(Line.arg.k, Line.arg.v)
+  \/ Line.a = "Erase2" /\ Erase2(Line.arg.k)
+  \/ Line.a = "Clear2" /\ Clear2
+  \/ Line.a = "PutRange" /\ PutRange(Line.arg.lo, Line.arg.n, Line.arg.d)
+  \/ Line.a = "EraseEvery" /\ EraseEvery(Line.arg.lo, Line.arg.n, Line.arg.st, Line.arg.r, Line.arg.how)
 
 TStep  == l <= N /\ Line.a # "Reset" /\ Dispatch /\ ObsMatches /\ l' = l + 1
-TReset == l <= N /\ Line.a = "Reset" /\ m' = <<>> /\ last' = [a |-> "Init", arg |-> <<>>, exp |-> Proj(<<>>)] /\ l' = l + 1
+TReset == l <= N /\ Line.a = "Reset" /\ m' = <<>> /\ s' = <<>> /\ last' = [a |-> "Init", arg |-> <<>>, exp |-> Obs(<<>>, <<>>)] /\ l' = l + 1
 TNext  == TStep \/ TReset
 TSpec  == TInit /\ [][TNext]_tvars
 
